@@ -469,4 +469,206 @@ theorem C20_counterexample_reponce_skip :
   decide
 
 
+/-! ## the passes that ARE semantics preserving on the typed parser
+
+pest_meta's `optimize` = `rotate ; skip ; unroll ; concatenate ; factor ; list` then `restore_on_err`.
+What the generator does with their output, and what is proved here:
+
+* `restore_on_err` — `RestoreOnErr(e)` generates the type of `e` (`C20_pass_restore_root`): the typed
+  combinators restore the stack themselves.
+* `rotate` (re-association `(a ~ b) ~ c ⇒ a ~ (b ~ c)`, same for `|`) — the raw path emits the nested type
+  `Seq2<Seq2<a, b>, c>`, the optimized path the flat `Seq3<a, b, c>` (`walk!` flattens right spines).
+* `concatenate` (`"a" ~ "b" ⇒ "ab"` in atomic rules).
+  For these two, `Rw` (Lemmas/GenOptsLemmas.lean) describes the effect on the generated module: one
+  layer of flattening / trailing-literal merging at any set of positions, under every combinator and
+  in every rule body; `GRel G₁ G₂` relates two whole modules rule by rule and `GRelStar` is its
+  reflexive-transitive closure (several layers, several passes).  `C20_pass_rotate_concatenate_sim`
+  is the simulation theorem: with the same fuel, whenever the un-rewritten parser answers, the
+  rewritten one gives the same verdict, cursor, stack, tracker and token tree.
+* `unroll` (`e+ ⇒ e ~ e*`, `e{n,m} ⇒ e ~ … ~ e? …`) — NOT preserving when skip rules exist
+  (`C20_counterexample_reponce_skip`); `list` — NOT preserving (`C20_counterexample_lister`).
+* `factor`, `skip`, `unroll` without skip rules, `concatenate` of `^"a" ~ ^"b"`: no theorem here (the
+  harness replays every pass on the corpus: none of them changed a model answer; see evidence).
+
+`C20_raw_eq_opt_partial` is what this gives for the property: it carries the hypothesis
+`GRelStar (gen raw) (gen optimized)` — the optimized module is the raw one up to flattening and literal
+merging — which is exactly what excludes the two findings (`C20_lister_not_GRelStar`,
+`C20_reponce_not_GRelStar`).
+MISSING for the full statement (kept visible):
+  `∀ raw, let optimized := pest_meta.optimize raw;  ¬ ListerApplies raw → ¬ (UnrollApplies raw ∧ skip rules) →
+     ∀ rule input, run (gen raw) ≈ run (gen optimized)`
+needs (1) a Lean mirror of the passes with `GRelStar (gen raw) (gen (rotate/concatenate raw))` proved
+syntactically, (2) simulation theorems for `factor`, `skip` and skip-free `unroll`, (3) the converse
+direction (the flat parser answering implies the nested one answers: needs a fuel bound). -/
+
+/-- `restore_on_err` is transparent at the place where it is inserted. -/
+theorem C20_pass_restore_root (g : PGrammar) (sk : Flag) (e : PExpr) :
+    genExpr g sk (.restoreOnErr e) = genExpr g sk e := by
+  simp only [genExpr]
+
+/-- Simulation for `rotate` + `concatenate` (their effect on the generated module, anywhere). -/
+theorem C20_pass_rotate_concatenate_sim (G1 G2 : NodeGrammar) (h : GRelStar G1 G2) (uni : Uni) (n : Nat)
+    (r : RuleId) (i : Inp) :
+    RelT G1 G2 (tryParsePartial G1 uni n r i) (tryParsePartial G2 uni n r i) ∧
+    RelT G1 G2 (tryParse G1 uni n r i) (tryParse G2 uni n r i) :=
+  ⟨tryParsePartial_simStar uni h n r i, tryParse_simStar uni h n r i⟩
+
+/-- Node-level form, one layer: any node, any state, any atomicity. -/
+theorem C20_pass_rotate_concatenate_node (G1 G2 : NodeGrammar) (h : GRel G1 G2) (uni : Uni) (n : Nat)
+    (a b : Node) (hab : Rw a b) (inh : Bool) (i : Inp) (m : M) :
+    RelT G1 G2 (parse G1 uni n inh a i m) (parse G2 uni n inh b i m) :=
+  parse_sim G1 G2 uni h n a b hab inh i m
+
+theorem RelT.obs {G1 G2 : NodeGrammar} {r1 r2 : R Val} (h : RelT G1 G2 r1 r2) (hne : r1 ≠ .oof) :
+    r1.state = r2.state ∧ Res.toks G1 r1 = Res.toks G2 r2 := by
+  rcases h.cases with h1 | ⟨m, h1, h2⟩ | ⟨i, m, a, b, h1, h2, hab⟩
+  · exact absurd h1 hne
+  · rw [h1, h2]; exact ⟨rfl, rfl⟩
+  · rw [h1, h2]; exact ⟨rfl, by simp only [Res.toks, hab]⟩
+
+/-- **Raw versus optimized, partial.**  If the module generated from the optimized AST is the module
+generated from the raw AST up to flattening of nested sequences / choices and merging of string
+literals (`rotate`, `concatenate`, `restore_on_err`; NOT `list`, NOT `unroll` in the presence of skip
+rules), then for all option combinations on either side, every rule, input form and fuel: whenever
+the `pest_optimizer = false` parser answers, the default parser gives the same verdict, consumed
+offset, stack, tracker and token tree. -/
+theorem C20_raw_eq_opt_partial (cfg cfg' : Config) (hraw : cfg.pest_optimizer = false)
+    (hopt : cfg'.pest_optimizer = true) (optimized raw : PGrammar)
+    (hG : GRelStar (gen raw) (gen optimized)) (uni : Uni) (n : Nat) (r : RuleId) (i : Inp) :
+    let Gr := genWith cfg optimized raw
+    let Go := genWith cfg' optimized raw
+    (tryParsePartial Gr uni n r i ≠ .oof →
+      (tryParsePartial Gr uni n r i).state = (tryParsePartial Go uni n r i).state ∧
+      Res.toks Gr (tryParsePartial Gr uni n r i) = Res.toks Go (tryParsePartial Go uni n r i)) ∧
+    (tryParse Gr uni n r i ≠ .oof →
+      (tryParse Gr uni n r i).state = (tryParse Go uni n r i).state ∧
+      Res.toks Gr (tryParse Gr uni n r i) = Res.toks Go (tryParse Go uni n r i)) := by
+  intro Gr Go
+  have h1 : (gen raw).eraseBoxed = Gr.eraseBoxed := by
+    show _ = (genOn cfg (pickAst cfg optimized raw)).eraseBoxed
+    rw [genOn_eraseBoxed]; simp only [pickAst, hraw, Bool.false_eq_true, if_false]
+  have h2 : (gen optimized).eraseBoxed = Go.eraseBoxed := by
+    show _ = (genOn cfg' (pickAst cfg' optimized raw)).eraseBoxed
+    rw [genOn_eraseBoxed]; simp only [pickAst, hopt, if_true]
+  have hS : GRelStar Gr Go := GRelStar.of_erase h1 h2 hG
+  exact ⟨fun hne => (tryParsePartial_simStar uni hS n r i).obs hne,
+         fun hne => (tryParse_simStar uni hS n r i).obs hne⟩
+
+/-- When both parsers answer (with whatever fuel each needs) the answers agree. -/
+theorem C20_raw_eq_opt_partial' (cfg cfg' : Config) (hraw : cfg.pest_optimizer = false)
+    (hopt : cfg'.pest_optimizer = true) (optimized raw : PGrammar)
+    (hG : GRelStar (gen raw) (gen optimized)) (uni : Uni) (n1 n2 : Nat) (r : RuleId) (i : Inp)
+    (res1 res2 : R Val)
+    (h1 : tryParsePartial (genWith cfg optimized raw) uni n1 r i = res1) (hne1 : res1 ≠ .oof)
+    (h2 : tryParsePartial (genWith cfg' optimized raw) uni n2 r i = res2) (hne2 : res2 ≠ .oof) :
+    res1.state = res2.state ∧
+    Res.toks (genWith cfg optimized raw) res1 = Res.toks (genWith cfg' optimized raw) res2 := by
+  have e1 := tryParsePartial_mono h1 hne1 n2
+  have e2 := tryParsePartial_mono h2 hne2 n1
+  have := (C20_raw_eq_opt_partial cfg cfg' hraw hopt optimized raw hG uni (n1 + n2) r i).1
+  rw [e1, show n1 + n2 = n2 + n1 by omega, e2] at this
+  exact this hne1
+
+/-! ### non-vacuity: a grammar on which `rotate` and `concatenate` fire
+`r = { ("a" ~ "b") ~ "c" }  s = @{ "a" ~ "b" }  u = { ("a" | "b") | "c" }  WHITESPACE = _{ " " }`
+(ASTs as `dump_ast` prints them). -/
+
+def c20RotRaw : PGrammar := [
+  { name := "r", kind := .normal, expr := .seq (.seq (.str ['a']) (.str ['b'])) (.str ['c']) },
+  { name := "s", kind := .atomic, expr := .seq (.str ['a']) (.str ['b']) },
+  { name := "u", kind := .normal, expr := .choice (.choice (.str ['a']) (.str ['b'])) (.str ['c']) },
+  { name := "WHITESPACE", kind := .silent, expr := .str [' '] }]
+def c20RotOpt : PGrammar := [
+  { name := "r", kind := .normal, expr := .seq (.str ['a']) (.seq (.str ['b']) (.str ['c'])) },
+  { name := "s", kind := .atomic, expr := .str ['a', 'b'] },
+  { name := "u", kind := .normal, expr := .choice (.str ['a']) (.choice (.str ['b']) (.str ['c'])) },
+  { name := "WHITESPACE", kind := .silent, expr := .str [' '] }]
+
+def c20RotRawNG : NodeGrammar :=
+  { rules := [eoiDef,
+      { name := "r", atom := .inherited, emit := .both, boxed := true,
+        body := .seq .inh [.seq .inh [.str ['a'], .str ['b']], .str ['c']] },
+      { name := "s", atom := .atomic, emit := .span, boxed := true, body := .seq .zero [.str ['a'], .str ['b']] },
+      { name := "u", atom := .inherited, emit := .both, boxed := true,
+        body := .choice [.choice [.str ['a'], .str ['b']], .str ['c']] },
+      { name := "WHITESPACE", atom := .inherited, emit := .expression, boxed := true, body := .str [' '] }],
+    skipped := .atomicRepeat (.ref 4 .zero) }
+def c20RotOptNG : NodeGrammar :=
+  { rules := [eoiDef,
+      { name := "r", atom := .inherited, emit := .both, boxed := true,
+        body := .seq .inh [.str ['a'], .str ['b'], .str ['c']] },
+      { name := "s", atom := .atomic, emit := .span, boxed := true, body := .str ['a', 'b'] },
+      { name := "u", atom := .inherited, emit := .both, boxed := true,
+        body := .choice [.str ['a'], .str ['b'], .str ['c']] },
+      { name := "WHITESPACE", atom := .inherited, emit := .expression, boxed := true, body := .str [' '] }],
+    skipped := .atomicRepeat (.ref 4 .zero) }
+
+theorem c20Rot_gen_raw : gen c20RotRaw = c20RotRawNG := by
+  simp [gen, genRule, genExpr, genSeqSpine, genChoiceSpine, genSkipped, PGrammar.indexOf, PGrammar.indexOf.go,
+    c20RotRaw, c20RotRawNG, kindAtomicity, kindEmission, atomFlag]
+theorem c20Rot_gen_opt : gen c20RotOpt = c20RotOptNG := by
+  simp [gen, genRule, genExpr, genSeqSpine, genChoiceSpine, genSkipped, PGrammar.indexOf, PGrammar.indexOf.go,
+    c20RotOpt, c20RotOptNG, kindAtomicity, kindEmission, atomFlag]
+
+/-- The hypothesis of `C20_raw_eq_opt_partial` holds of this grammar (one layer). -/
+theorem c20Rot_GRel : GRel c20RotRawNG c20RotOptNG := by
+  refine ⟨Rw.refl _, fun r => ?_⟩
+  match r with
+  | 0 => exact Or.inr ⟨_, _, rfl, rfl, rfl, rfl, Rw.refl _⟩
+  | 1 => exact Or.inr ⟨_, _, rfl, rfl, rfl, rfl,
+      Rw.seqFlat (Rw.refl _) (RwL.refl [.str ['b']]) (RwL.refl [.str ['c']])⟩
+  | 2 => exact Or.inr ⟨_, _, rfl, rfl, rfl, rfl, Rw.strCat ['a'] ['b']⟩
+  | 3 => exact Or.inr ⟨_, _, rfl, rfl, rfl, rfl,
+      Rw.choiceFlat (Rw.refl _) (RwL.refl [.str ['b']]) (RwL.refl [.str ['c']])⟩
+  | 4 => exact Or.inr ⟨_, _, rfl, rfl, rfl, rfl, Rw.refl _⟩
+  | n+5 => exact Or.inl ⟨rfl, rfl⟩
+
+theorem c20Rot_GRelStar : GRelStar (gen c20RotRaw) (gen c20RotOpt) := by
+  rw [c20Rot_gen_raw, c20Rot_gen_opt]
+  exact GRelStar.step c20Rot_GRel (GRelStar.refl _)
+
+/-- … the two modules are different, and both do real work (skipping included) on `a b c`. -/
+example : (tryParsePartial c20RotRawNG (fun _ _ => false) 20 1 (c20Inp ['a', ' ', 'b', ' ', 'c'])).verdict
+    = some (some 5) := by decide
+example : (tryParsePartial c20RotOptNG (fun _ _ => false) 20 1 (c20Inp ['a', ' ', 'b', ' ', 'c'])).verdict
+    = some (some 5) := by decide
+example : (tryParsePartial c20RotRawNG (fun _ _ => false) 20 2 (c20Inp ['a', 'b', 'c'])).verdict
+    = some (some 2) := by decide
+example : (tryParsePartial c20RotOptNG (fun _ _ => false) 20 3 (c20Inp ['c'])).verdict = some (some 1) := by decide
+
+/-- The hypothesis is what excludes the two findings: were the lister / unrolled modules related by
+`GRelStar`, the counterexamples above could not exist. -/
+theorem C20_lister_not_GRelStar : ¬ GRelStar (gen c20ListerRaw) (gen c20ListerOpt) := by
+  intro h
+  have key := (C20_raw_eq_opt_partial { pest_optimizer := false } {} rfl rfl c20ListerOpt c20ListerRaw h
+    (fun _ _ => false) 20 1 (c20Inp ['a', 'b'])).1
+  obtain ⟨ho, hr⟩ := C20_counterexample_lister
+  have hne : tryParsePartial (genWith { pest_optimizer := false } c20ListerOpt c20ListerRaw) (fun _ _ => false) 20 1
+      (c20Inp ['a', 'b']) ≠ .oof := by
+    intro h0; rw [h0] at hr; cases hr
+  have hs := (key hne).1
+  revert ho hr hs
+  generalize tryParsePartial (genWith { pest_optimizer := false } c20ListerOpt c20ListerRaw) (fun _ _ => false) 20 1
+      (c20Inp ['a', 'b']) = x
+  generalize tryParsePartial (genWith {} c20ListerOpt c20ListerRaw) (fun _ _ => false) 20 1 (c20Inp ['a', 'b']) = y
+  intro ho hr hs
+  cases x <;> cases y <;> simp [Res.verdict] at ho hr hs
+
+theorem C20_reponce_not_GRelStar : ¬ GRelStar (gen c20OnceRaw) (gen c20OnceOpt) := by
+  intro h
+  have key := (C20_raw_eq_opt_partial { pest_optimizer := false } {} rfl rfl c20OnceOpt c20OnceRaw h
+    (fun _ _ => false) 20 1 (c20Inp ['a', ' '])).1
+  obtain ⟨ho, hr⟩ := C20_counterexample_reponce_skip
+  have hne : tryParsePartial (genWith { pest_optimizer := false } c20OnceOpt c20OnceRaw) (fun _ _ => false) 20 1
+      (c20Inp ['a', ' ']) ≠ .oof := by
+    intro h0; rw [h0] at hr; cases hr
+  have hs := (key hne).1
+  revert ho hr hs
+  generalize tryParsePartial (genWith { pest_optimizer := false } c20OnceOpt c20OnceRaw) (fun _ _ => false) 20 1
+      (c20Inp ['a', ' ']) = x
+  generalize tryParsePartial (genWith {} c20OnceOpt c20OnceRaw) (fun _ _ => false) 20 1 (c20Inp ['a', ' ']) = y
+  intro ho hr hs
+  cases x <;> cases y <;> simp [Res.verdict] at ho hr hs
+  all_goals (obtain ⟨rfl, _⟩ := hs; omega)
+
 end PestTyped
